@@ -256,7 +256,10 @@ def reference_session(ctx, sim, cfg, model, rng, ncalls):
         if rep['forward_open']['T_O']['connection_ID'] != otid:
             ctx.violation('forward-open-reply-wrong', 'T->O connection id %r not echoed (%r)' % (otid, rep['forward_open']['T_O']['connection_ID']), wit)
             return
-        seq = rng.randrange(1, 60000)
+        # sequence counts start just below the places where an implementation's arithmetic could slip: a byte boundary, the 16-bit
+        # wrap, small powers of two; plus a random start
+        _cycle['seq'] = _cycle.get('seq', 0) + 1
+        seq = [254, 65533, 62, 126, 4094, 32766, rng.randrange(1, 60000)][_cycle['seq'] % 7]
         for k in range(max(3, ncalls // 2)):
             label, req = reqgen.gen_request(rng, cfg, p_invalid=0.2, allow_unknown=False)
             if rng.random() < 0.3:
